@@ -29,6 +29,12 @@ def execute(sc):
         probes['restart_in_2d_mode'] = 1
     if st['predicts']:
         probes['predict_interleaved'] = 1
+    if st['keep_att']:
+        probes['overwrite_keeping_held_attitude'] = 1
+    if st['blind']:
+        probes['blind_monitor_mode'] = 1
+    if st['long_chunk']:
+        probes['chunk_of_100_or_more_rows'] = 1
     return dict(violations=v02, digest=dg, sig=st['sig'],
                 nontrivial=(st['ops'] > 1 and (st['grow'] or st['set_pva'] or st['predicts']
                                                or st['empty_chunks'])),
@@ -56,14 +62,19 @@ def sample_view(sc):
 
 PROBES_WANTED = ['buffer_growth', 'growth_during_predict', 'chunk_straddles_capacity',
                  'empty_chunk', 'restart_after_set_pva', 'restart_in_2d_mode',
-                 'predict_interleaved']
+                 'predict_interleaved', 'overwrite_keeping_held_attitude',
+                 'blind_monitor_mode', 'chunk_of_100_or_more_rows']
 
 
 def describe():
     return dict(
         rule=("Each run: a seeded call history (3-40 operations drawn from integrate(chunk "
               "of 0/1/2/3/5/8/13/rest rows), predict(next row), predict(scaled row), "
-              "get_pva, get_time, set_pva(random state)) on one REAL Integrator with the "
+              "get_pva, get_time, set_pva(random state), fix_position (read state, edit "
+              "position/velocity, write back with the held angles), set_pva(get_pva())) on "
+              "one REAL Integrator; 12 % long histories (120-330 rows, chunks of 100+); half "
+              "the histories in BLIND monitor mode (only returned values are inspected, the "
+              "trajectory once at the end); the "
               "capacity knob INITIAL_SIZE in {1,2,3,4,5,7,8,16,10000}, both altitude modes, "
               "perturbed increments, irregular dt, odd clock origins; after every operation "
               "the observable state is compared bitwise with a reference model (fresh "
